@@ -175,10 +175,16 @@ func verifyFunction(L *Loaded, fn *ssa.Function, fs *FuncSpec) (res *FuncResult)
 		if seen[what] > 1 {
 			what = fmt.Sprintf("%s #%d", what, seen[what])
 		}
+		nb := len(vc.obls)
 		if hasPanics {
 			vc.oblige("panics=>", fmt.Sprintf("%s#panics=>[%s]", fname, what), e.Cond, P, e.Pos)
 		} else {
 			vc.oblige("safety", fmt.Sprintf("%s#safe[%s]", fname, what), e.Cond, tFalse, e.Pos)
+		}
+		if e.NAss > 0 && !hasPanics {
+			for _, o := range vc.obls[nb:] {
+				o.NAss = e.NAss
+			}
 		}
 		if fs.Flags["xpure"] {
 			if e.St.epoch != 0 {
